@@ -117,7 +117,7 @@ def specMethod (kv : List (Bytes × Obj)) : Option (SpecSec.Method × Nat) := do
       match ((cf.find? fun e => e.1 == stmF).map (·.2) : Option Obj) with
       | some (Obj.dict f) =>
         let cfm ← dName f "CFM"
-        if cfm == bytesOfString "V2" then pure (.v2, 16)
+        if cfm == bytesOfString "V2" then pure (.v2cf, 16)
         else if cfm == bytesOfString "AESV2" then pure (.aesv2, 16)
         else if cfm == bytesOfString "AESV3" then pure (.aesv3, 32)
         else none
@@ -137,10 +137,10 @@ def specParams (kv : List (Bytes × Obj)) (id0 : Bytes) : Option (SpecSec.Method
              Perms := (dStr kv "Perms").getD [] })
 
 def methodOf (s : String) : Option SpecSec.Method :=
-  if s == "v2" then some .v2 else if s == "aesv2" then some .aesv2 else if s == "aesv3" then some .aesv3 else none
+  if s == "v2" then some .v2 else if s == "v2cf" then some .v2cf else if s == "aesv2" then some .aesv2 else if s == "aesv3" then some .aesv3 else none
 
 def methodName : SpecSec.Method → String
-  | .v2 => "v2" | .aesv2 => "aesv2" | .aesv3 => "aesv3"
+  | .v2 => "v2" | .v2cf => "v2cf" | .aesv2 => "aesv2" | .aesv3 => "aesv3"
 
 mutual
 def valToObj : SpecSec.Val → Obj
@@ -154,15 +154,28 @@ def valsToKV : List (String × SpecSec.Val) → List (Bytes × Obj)
   | (k, v) :: rest => (bytesOfString k, valToObj v) :: valsToKV rest
 end
 
-/-- `num:gen:iv:plain` -/
-def parseItem (s : String) : Option (Nat × Nat × Bytes × Bytes) :=
+def kindOf (s : String) : Option SpecSec.DataKind :=
+  if s == "s" then some .string else if s == "t" then some .stream else if s == "e" then some .embeddedFile else none
+
+/-- `num:gen:iv:plain:kind`, kind = s (string), t (stream), e (embedded file stream) -/
+def parseItem (s : String) : Option (Nat × Nat × Bytes × Bytes × SpecSec.DataKind) :=
   match s.splitOn ":" with
-  | [a, b, c, d] => do
+  | [a, b, c, d, k] => do
     let n ← a.toNat?
     let g ← b.toNat?
     let iv ← bytesOfHex c
     let p ← bytesOfHex d
-    pure (n, g, iv, p)
+    let kind ← kindOf k
+    pure (n, g, iv, p, kind)
+  | _ => none
+
+/-- three letters S (StdCF) / I (Identity) for /StmF, /StrF, /EFF -/
+def selOf (s : String) : Option SpecSec.Selection :=
+  match s.toList with
+  | [a, b, c] =>
+    if [a, b, c].all (fun x => x == 'S' || x == 'I') then
+      some { streams := a == 'S', strings := b == 'S', embeddedFiles := c == 'S' }
+    else none
   | _ => none
 
 /-! ### dispatch -/
@@ -276,7 +289,7 @@ def handle (args : List String) : String :=
       | .ok _ => "ok"
       | .error e => s!"err {e}"
     | _, _ => "bad-arg"
-  | ["chain", d, a] =>
+  | ["chain", d, a, encd] =>
     let kinds (s : String) : Option (List SEC.FilterKind) :=
       if s == "-" then some [] else s.toList.mapM fun c =>
         if c == 'I' then some SEC.FilterKind.cryptIdentity else if c == 'S' then some .cryptOther
@@ -285,7 +298,7 @@ def handle (args : List String) : String :=
       if l.isEmpty then "-" else String.ofList (l.map fun k => match k with | .cryptIdentity => 'I' | .cryptOther => 'S' | .other => 'F')
     match kinds d, kinds a with
     | some d, some a =>
-      match SEC.openStreamChain d a with
+      match SEC.openStreamChain d a (if encd == "1" then some true else if encd == "0" then some false else none) with
       | .ok (ch, skip) => s!"ok {showK ch} skip={if skip then 1 else 0}"
       | .error e => s!"err {e}"
     | _, _ => "bad-arg"
@@ -347,12 +360,14 @@ def handle (args : List String) : String :=
                                   encryptMetadata := flag emd, OE := oe, UE := ue, Perms := perms }
       "ok " ++ (sortObj (.dict (valsToKV (SpecSec.encryptDict m bits p)))).wire
     | _, _, _, _, _, _, _, _, _ => "bad-arg"
-  | ["spec.file", m, bits, rev3, pval, emd, id0, uPw, oPw, fkey, salts, rnd, items] =>
-    match methodOf m, bits.toNat?, pval.toNat?, bytesOfHex id0, bytesOfHex uPw, bytesOfHex oPw,
+  | ["spec.file", m, sel, bits, rev3, pval, emd, id0, uPw, oPw, fkey, salts, rnd, items] =>
+    match methodOf m, selOf sel, bits.toNat?, pval.toNat?, bytesOfHex id0, bytesOfHex uPw, bytesOfHex oPw,
           bytesOfHex fkey, bytesOfHex salts, bytesOfHex rnd, (if items == "." then some [] else (items.splitOn ",").mapM parseItem) with
-    | some m, some bits, some pval, some id0, some uPw, some oPw, some fkey, some salts, some rnd, some items =>
+    | some m, some sel, some bits, some pval, some id0, some uPw, some oPw, some fkey, some salts, some rnd, some items =>
       let C := execCrypto
-      let V := match m with | .v2 => (if bits = 40 then 1 else 2) | .aesv2 => 4 | .aesv3 => 5
+      -- the selection of crypt filters exists only with crypt filters
+      let sel : SpecSec.Selection := if m.hasCryptFilters then sel else {}
+      let V := match m with | .v2 => (if bits = 40 then 1 else 2) | .v2cf => 4 | .aesv2 => 4 | .aesv3 => 5
       match SpecSec.revisionFor V (flag rev3) with
       | none => "unsupported"
       | some R =>
@@ -372,10 +387,10 @@ def handle (args : List String) : String :=
             let oe := SpecSec.alg9 C fkey op ue.1 ((salts.drop 16).take 8) ((salts.drop 24).take 8)
             ({ p0 with U := ue.1, UE := ue.2, O := oe.1, OE := oe.2,
                        Perms := SpecSec.alg10 C fkey pval (flag emd) rnd }, fkey)
-        let d := valsToKV (SpecSec.encryptDict m bits p)
-        let cts := items.map fun (n, g, iv, pl) => SpecSec.encryptData C m fileKey n g iv pl
+        let d := valsToKV (SpecSec.encryptDict m bits p sel)
+        let cts := items.map fun (n, g, iv, pl, kind) => SpecSec.storeData C m sel kind fileKey n g iv pl
         s!"ok {(sortObj (.dict d)).wire} {hexWire fileKey} {showList cts}"
-    | _, _, _, _, _, _, _, _, _, _ => "bad-arg"
+    | _, _, _, _, _, _, _, _, _, _, _ => "bad-arg"
   | _ => "bad-op"
 
 end PdfVerif.Driver.SEC
